@@ -15,7 +15,8 @@ def run(chk):
     chk.rule = ("every input ≤ L bytes over {a,b,-,EOL} × the -M bounds/options pool × EVERY segmentation into non-empty reads "
                 "(2^(len-1)); random inputs up to 300 bytes with random, one-byte and adversarial (cut just before/after every "
                 "delimiter and EOL) segmentations; hand-built bounds with two adjacent literal texts are also run (model = "
-                "implementation expected there, both chunk-dependent); non-trivial = selects a byte or fails; distinct by case text")
+                "implementation expected there, both chunk-dependent); plus 150 (thorough 3000) inputs with fields of 1 KiB - 70 KiB under whole / right-after-every-delimiter / right-before / 1000-5000 / 4096 / "
+                "65536-byte reads (implementation against itself); non-trivial = selects a byte or fails; distinct by case text")
     run_corpus(chk)
     rng = chk.rng
     L = 5 if chk.tier == "quick" else 6
@@ -93,3 +94,62 @@ def run(chk):
         chk.sample(case_line(c))
     lines, impl, _ = evaluate(chk, cases, "K-stream", spec=False)
     oracle(lines, impl, base_idx)
+
+    # large fields and large reads: the same independence on inputs in which one or two fields are 1 KiB - 70 KiB long, read whole, in reads
+    # that end right after every delimiter / EOL (then whatever is left of the field in one piece), in reads of 1000-5000 bytes, of 4096 and
+    # of 65536 bytes.  Implementation against itself (this IS the property); the model is not run on these sizes.
+    from common import run_impl
+    from gen import BIG_SIZES_SMALL
+    big, bidx = [], []
+    for _ in range(150 if chk.tier == "quick" else 3000):
+        z = rng.random() < 0.2
+        eol = b"\0" if z else b"\n"
+        recs = []
+        for _r in range(rng.randint(1, 3)):
+            fields = [rng.choice([b"", b"x", b"key", b"ab"]) for _f in range(rng.randint(1, 4))]
+            for _k in range(rng.choice([1, 1, 2])):
+                j = rng.randrange(len(fields))
+                fields[j] = fields[j] + rng.choice([b"x", b"y\r", b"ab"]) * rng.choice(BIG_SIZES_SMALL)
+            recs.append(b"-".join(fields))
+        inp = eol.join(recs) + (eol if rng.random() < 0.8 else b"")
+        n = len(inp)
+        b = rng.choice(BOUNDS) if rng.random() < 0.6 else rng.choice(["1", ":1", "1:", "2", "1,2", "2:", "{1}x"])
+        o = {"z": z}
+        if rng.random() < 0.4:
+            o["j"] = True
+        if rng.random() < 0.2:
+            o["r"] = b"/"
+            o["j"] = True
+        if rng.random() < 0.3:
+            o["fb"] = b"G"
+        adv, cur = [], 0
+        for i, ch in enumerate(inp):
+            if ch in (45, eol[0]):
+                adv.append(i + 1 - cur)          # a read that ends right after the delimiter / EOL
+                cur = i + 1
+        if n - cur > 0:
+            adv.append(n - cur)
+        adv2, cur = [], 0
+        for i, ch in enumerate(inp):
+            if ch in (45, eol[0]) and i > cur:
+                adv2.append(i - cur)             # … and one that ends right before it
+                cur = i
+        if n - cur > 0:
+            adv2.append(n - cur)
+        first = len(big)
+        for segs in ([n], adv, adv2, [rng.randint(1000, 5000) for _ in range(n // 1000 + 1)], [4096] * (n // 4096 + 1), [65536] * (n // 65536 + 1),
+                     [rng.choice([1, 4096]) for _ in range(64)] + [n]):
+            c = {"kind": "cut", "eng": "stream", "d": b"-", "b": b, "in": inp, "seg": segs}
+            c.update(o)
+            big.append(c)
+            bidx.append(first)
+    blines = [case_line(c) for c in big]
+    bimpl = run_impl(blines)
+    for i, (l, a, bi) in enumerate(zip(blines, bimpl, bidx)):
+        chk.evaluations += 1
+        chk.count("large-fields:" + a.split(" ")[0])
+        chk.nontrivial_add(("large", hash(l)))
+        if a != bimpl[bi]:
+            chk.report_oracle("-M output depends on how the input is split into reads (input with fields of 1 KiB - 70 KiB)",
+                              {"case": l if len(l) < 60000 else l[:60000] + "…", "segmentation": big[i]["seg"][:40], "input_len": len(big[i]["in"]),
+                               "this_segmentation": a[:300], "one_segment": bimpl[bi][:300]})
